@@ -100,6 +100,10 @@ def gen(rng, isa, script=None, load_via=None):
         elif k < 0.8:
             lines.append(("imulq %%%s, %%%s" % (other[0], R)) if isa == "x86" else "mul %s, %s, %s" % (R, R, other[0]))
             env[R] = None
+        elif k < 0.86 and isa == "x86":
+            # a write to the 32-bit part of an address register: the full register is no longer known
+            lines.append("addl $%d, %%e%s" % (K, R[1:]))
+            env[R] = None
         elif k < 0.9:
             lines.append(("addq %%%s, %%%s" % (other[0], other[1])) if isa == "x86" else "add %s, %s, %s" % (other[1], other[1], other[0]))
         else:
@@ -145,6 +149,11 @@ def gen(rng, isa, script=None, load_via=None):
             eq = (D or 0) == (D2 or 0) + env[B2][1]
         elif env[I2] and env[I2][0] == I and S2 == S:
             eq = (D or 0) == (D2 or 0) + env[B2][1] + env[I2][1] * S
+    if isa == "x86" and script is None and rng.random() < 0.3:
+        # register names are case-insensitive: a hand-written kernel in upper case, analysed in the same process as lower-case ones
+        import re as _re
+        lines = [_re.sub(r"%[a-z0-9]+", lambda m: m.group(0).upper(), l) for l in lines]
+        store_txt = _re.sub(r"%[a-z0-9]+", lambda m: m.group(0).upper(), store_txt)
     return "\n".join(lines) + "\n", {"equal": eq, "killed": killed, "store_copies": sorted(set([i for i, l in enumerate(lines) if l == store_txt] + kill_lines)),
                                      "n": len(lines), "env": {k: v for k, v in env.items()}, "store": (B, I, S, D), "load": (B2, I2, S2, D2)}
 
